@@ -13,6 +13,7 @@ import Yarel.Drv.Mod
 import Yarel.Drv.Cls
 import Yarel.Drv.Err
 import Yarel.Drv.Num
+import Yarel.Drv.Spec
 
 def main (args : List String) : IO UInt32 := do
   match args with
@@ -30,6 +31,7 @@ def main (args : List String) : IO UInt32 := do
   | "cls" :: rest => do Yarel.Drv.Cls.run rest; return 0
   | "err" :: rest => do Yarel.Drv.Err.run rest; return 0
   | "num" :: rest => do Yarel.Drv.Num.run rest; return 0
+  | "spec" :: rest => do Yarel.Drv.Spec.run rest; return 0
   | _ => do
     IO.eprintln "usage: yarel_model <family> [args]"
     return 2
